@@ -571,4 +571,34 @@ def rule_l(ctx: Ctx) -> None:
                 'for representatives of the NCName alphabet.')
 
 
-RULES = [rule_a, rule_b, rule_c, rule_d, rule_e, rule_f, rule_g, rule_h, rule_i, rule_j, rule_k, rule_l]
+def rule_m(ctx: Ctx) -> None:
+    """A path handed to find() / findall() / iterfind() of a schema component is read with the *caller's* prefix map when one is given - the drivers pass the
+    map of the instance, in which an unprefixed step means "no namespace" unless the instance says otherwise.  The schema document's own declarations (its
+    default namespace, typically the XSD namespace) are a fallback for a missing map only, never merged under a given one.  Sibling agreement of the three."""
+    rule = 'C20.m'
+    c = ctx.idx.cls('xmlschema.xpath.mixin.ElementPathMixin')
+    n = 0
+    for meth in ('find', 'findall', 'iterfind'):
+        f = c.methods.get(meth)
+        if f is None:
+            raise AnalysisError(f'missing anchor ElementPathMixin.{meth}')
+        ctx.analysed(f.qualname)
+        g = cfg_of(ctx, f)
+        p = [x for x in f.params if x != 'self']
+        nsp = p[1] if len(p) > 1 else 'namespaces'
+        defs = [x for x in g.nodes if x.kind == 'stmt' and isinstance(x.ast, ast.Assign) and any(text(t) == nsp for t in x.ast.targets)]
+        n += 1
+        bad = [d for d in defs if not ((f'{nsp} is None', 'T') in guards(ctx, f, d) or (f'{nsp} is not None', 'F') in guards(ctx, f, d) or (f'not {nsp}', 'T') in guards(ctx, f, d))]
+        parsers = [cl for cl in calls(f.node) if text(cl.func).endswith('FindParser') or text(cl.func).endswith('Parser')]
+        arg_ok = all(cl.args and text(cl.args[0]) == nsp for cl in parsers) and bool(parsers)
+        ok = not bad and arg_ok
+        ctx.ob(rule, f'ElementPathMixin.{meth}: a given prefix map is used as it is (the schema\'s own map only replaces a missing one)', f.loc(bad[0].ast) if bad else f.loc(), ok,
+               '' if ok else (f'`{text(bad[0].ast)[:60]}` rebinds the map although one was given' if bad else 'the parser does not receive the map parameter') +
+               ': the default namespace of the schema document leaks into the lookup - with <schema xmlns="http://www.w3.org/2001/XMLSchema"> the unprefixed steps of '
+               'iter_errors(path=\'/root/item\') select nothing on the schema and the selected elements are silently skipped', key=f'ElementPathMixin.{meth}|caller-map')
+    ctx.floor(rule, 'path lookup methods', n, 3)
+    ctx.explain('C20.m: in ElementPathMixin.find / findall / iterfind every assignment to the `namespaces` parameter is control dependent on `namespaces is None`, and the parser is '
+                'constructed with that parameter.')
+
+
+RULES = [rule_a, rule_b, rule_c, rule_d, rule_e, rule_f, rule_g, rule_h, rule_i, rule_j, rule_k, rule_l, rule_m]
